@@ -34,6 +34,34 @@ def run(ck):
                           "strat": ["random", rng.randrange(10 ** 9), 0.5], "gran": "sync",
                           "facts": {"kind": kind, "hist": "+".join(sorted(set(hist)))}})
     ck.run_and_validate(tasks, TRACE, nontrivial=lambda t, r: True)
+    # the other direction: the user keeps the finished futures and drops the executor without shutdown()
+    tasks = []
+    for kind in KINDS:
+        for i in range(12 if quick else 120):
+            hist = [rng.choice(items + (["cancel_between", "cancel_between"] if kind == "retry" else []))
+                    for _ in range(rng.choice([1, 1, 2, 3]))]
+            tasks.append({"scen": "reclaim", "params": {"kind": kind, "mode": "keep", "hist": hist},
+                          "strat": ["random", rng.randrange(10 ** 9), 0.5], "gran": "sync",
+                          "facts": {"kind": kind, "hist": "+".join(sorted(set(hist))), "keep": True}})
+    ck.run_and_validate(tasks, TRACE, nontrivial=lambda t, r: True)
+    # the registry of shutdown-aware events: one executor's event is reclaimed (weakref callback rebuilding the list)
+    # while another thread registers the event of a new executor; then the exit hook must still reach the new one.
+    # Directed, at the granularity of single bytecodes (the window lies inside one source line).
+    tasks = []
+    wname = {"retry": "RetryExecutor-w", "poll": "PollExecutor-w", "throttle": "ThrottleExecutor-w",
+             "timeout": "TimeoutExecutor-w"}
+    for kind in KINDS:
+        for n in range(1, 90, 1 if not quick else 1):
+            for order in (0, 1):
+                if order == 0:
+                    ph = [["dropper", 10000], [wname[kind], n], ["creator", 10000], [wname[kind], 10000]]
+                else:
+                    if quick and n % 3:
+                        continue
+                    ph = [["dropper", 10000], ["creator", 4 * n], [wname[kind], 10000], ["creator", 10000]]
+                tasks.append({"scen": "reclaim", "params": {"kind": kind, "mode": "exitrace"}, "strat": ["phases", ph],
+                              "gran": "instr", "facts": {"kind": kind, "exitrace": True}})
+    ck.run_and_validate(tasks, TRACE, nontrivial=lambda t, r: True)
     ck.assumptions += ["CPython reference counting and gc.collect() decide when an object is freed",
                        "a real interpreter exit is represented by calling the library's exit hook",
                        "user functions of the scenarios do not reference the executor"]
